@@ -18,6 +18,10 @@ open SxVerif.Live SxVerif.Proofs.Live SxVerif.Generated
 
 theorem translator_clean : translatorProblems = [] := by decide
 
+/-- the live-generator translator (sxfacts/live.go) keeps its own problem list, so that a rewrite of
+    this code breaks C19's obligations only -/
+theorem live_translator_clean : liveTranslatorProblems = [] := by decide
+
 /-- **T**: `liveRequestGenerator.GenerateRequests`, `readRequest`, `writeRequest` and the constructor,
     regenerated from pkg/scan/request.go, have exactly the shape `Model/Live.lean` transcribes: pass 0
     before the goroutine and its error returned; `out` closed by the goroutine's only `defer`; the loop
